@@ -845,4 +845,5 @@ SELFTESTS = [
     (rule_walk_accounting, ["c01_bad.cc"], ["c01_good.cc"], "amount"),
     (rule_degenerate_continue, ["c01_bad.cc"], ["c01_good.cc"], "count_volumes_bad"),
     (rule_opus_catalogue_slot, ["c01_bad.cc"], ["c01_good.cc"], "catalogue-slot"),
+    (rule_extents_from_sorted, ["c01_bad.cc"], ["c01_good.cc"], "extent-loop"),
 ]
